@@ -136,6 +136,12 @@ mod misc {
                     ));
                 };
 
+            if num_elements <= 0 {
+                return Err(StoryError::InvalidStoryState(
+                    "A shuffle needs at least one element".to_owned(),
+                ));
+            }
+
             let seq_container = self.get_state().get_current_pointer().container.unwrap();
 
             let seq_count = if let Some(v) =
